@@ -178,6 +178,15 @@ func (rt *scenRT) body(t *f1t.T) {
 	if rt.cfg.Prog.Rendezvous > 0 {
 		rt.rendezvous(rec)
 	}
+	if plan.RacyHelper {
+		// the body hands an error report to a helper goroutine and returns without waiting for it
+		done := make(chan struct{})
+		go func() {
+			<-done
+			t.Errorf("report from a helper goroutine the body did not wait for")
+		}()
+		defer close(done)
+	}
 	if plan.SleepNs > 0 {
 		time.Sleep(time.Duration(plan.SleepNs))
 	}
